@@ -114,4 +114,12 @@ LowerT(t, n) == IF IsLeaf(t) THEN t
                 ELSE IF n = 0 THEN Partial    \* a mixed subtree below the new depth: something, but not entirely full
                 ELSE Norm4(<<LowerT(t[1], n - 1), LowerT(t[2], n - 1), LowerT(t[3], n - 1), LowerT(t[4], n - 1)>>)
 Lower(F, d) == [b \in 0..11 |-> LowerT(F[b], d)]
+(* the property only demands: a coarse cell is kept iff it contained something, and is full ONLY IF it was entirely
+   covered by full cells (a coarse cell entirely covered by four full children may legitimately come out partial when
+   the source was not packed).  Weak forgets the full/partial distinction, FullPart keeps the full part only. *)
+RECURSIVE MapLeaves(_, _)
+MapLeaves(t, m) == IF IsLeaf(t) THEN <<m[Rk(t) + 1]>> ELSE Norm4(<<MapLeaves(t[1], m), MapLeaves(t[2], m), MapLeaves(t[3], m), MapLeaves(t[4], m)>>)
+Weak(F) == [b \in 0..11 |-> MapLeaves(F[b], <<0, 1, 1>>)]
+FullPart(F) == [b \in 0..11 |-> MapLeaves(F[b], <<0, 0, 2>>)]
+LoweredOK(R, E) == Weak(R) = Weak(E) /\ Op2("and", FullPart(R), FullPart(E)) = FullPart(R)
 =======================================================================
